@@ -43,6 +43,16 @@ type RunObs struct {
 	Internal []string       `json:"internal,omitempty"` // error texts that show an internal failure of the runtime
 	Others   []string       `json:"others,omitempty"`   // error texts outside the known trap classes (first few)
 	Timeouts int            `json:"timeouts,omitempty"`
+	log      []callRec
+}
+
+// callRec is one export call as seen on one engine (kept to compare the engines on valid-by-construction modules).
+type callRec struct {
+	fn   string
+	av   int
+	trap string
+	res  []uint64
+	rt   []api.ValueType
 }
 
 type Res struct {
@@ -53,6 +63,8 @@ type Res struct {
 	Comp  map[string]Meas    `json:"comp"`
 	Run   map[string]*RunObs `json:"run,omitempty"`
 	NFunc int                `json:"nfunc"`
+	// EngDiff: first call on which interpreter and compiler disagree (results, or trap class); valid classes only
+	EngDiff string `json:"engdiff,omitempty"`
 }
 
 func allocLimit(n int) uint64  { return 1<<20 + 4096*uint64(n) }
@@ -216,6 +228,9 @@ func childMode() {
 				res.Run[eng] = runModule(ctx, eng, bin, mod)
 			}
 		}
+		if strings.HasPrefix(in.Class, "valid") && res.Run["interp"] != nil && res.Run["compiler"] != nil {
+			res.EngDiff = compareEngines(res.Run["interp"], res.Run["compiler"])
+		}
 		b, _ := json.Marshal(res)
 		say(string(b))
 	}
@@ -376,26 +391,83 @@ func tooBigToRun(m *wasm.Module) string {
 	return ""
 }
 
+// argVectors: zero, all-ones and mixed boundary arguments; a v128 parameter takes two 64-bit slots, reference
+// parameters are null (externref: also an opaque non-null value).
 func argVectors(ps []api.ValueType) [][]uint64 {
-	n := len(ps)
-	zero := make([]uint64, n)
-	ones := make([]uint64, n)
-	mix := make([]uint64, n)
+	var zero, ones, mix []uint64
 	for i, t := range ps {
 		switch t {
 		case api.ValueTypeI32, api.ValueTypeF32:
-			ones[i] = 0xffffffff
-			mix[i] = []uint64{0x7fffffff, 0x80000000, 1, 65536}[i%4]
+			zero, ones = append(zero, 0), append(ones, 0xffffffff)
+			mix = append(mix, []uint64{0x7fffffff, 0x80000000, 1, 65536}[i%4])
 		case api.ValueTypeI64, api.ValueTypeF64:
-			ones[i] = ^uint64(0)
-			mix[i] = []uint64{1 << 63, 1<<63 - 1, 1, 1 << 32}[i%4]
-		default: // reference types: null
+			zero, ones = append(zero, 0), append(ones, ^uint64(0))
+			mix = append(mix, []uint64{1 << 63, 1<<63 - 1, 1, 1 << 32}[i%4])
+		case 0x7b: // v128
+			zero, ones = append(zero, 0, 0), append(ones, ^uint64(0), ^uint64(0))
+			mix = append(mix, 0x0123456789abcdef, 1<<63|uint64(i))
+		case api.ValueTypeExternref:
+			zero, ones, mix = append(zero, 0), append(ones, 0), append(mix, 0x1234)
+		default: // funcref: null
+			zero, ones, mix = append(zero, 0), append(ones, 0), append(mix, 0)
 		}
 	}
-	if n == 0 {
+	if len(ps) == 0 {
 		return [][]uint64{zero}
 	}
 	return [][]uint64{zero, ones, mix}
+}
+
+func isNaN(t api.ValueType, v uint64) bool {
+	if t == api.ValueTypeF32 {
+		return uint32(v)&0x7fffffff > 0x7f800000
+	}
+	return t == api.ValueTypeF64 && v&0x7fffffffffffffff > 0x7ff0000000000000
+}
+
+// compareEngines: both engines must return the same results or the same trap class on every call; NaN results are
+// compared by class, function references by null-ness (their representation is an address). Comparison stops at the
+// first timeout or call-stack exhaustion, where the engines may legitimately differ.
+func compareEngines(a, b *RunObs) string {
+	if a.Skipped != "" || b.Skipped != "" {
+		return ""
+	}
+	if (a.InstErr == "") != (b.InstErr == "") {
+		return fmt.Sprintf("instantiation: interpreter %q, compiler %q", a.InstErr, b.InstErr)
+	}
+	for i := 0; i < len(a.log) && i < len(b.log); i++ {
+		x, y := a.log[i], b.log[i]
+		if x.trap == "timeout" || y.trap == "timeout" || x.trap == "exhaust" || y.trap == "exhaust" {
+			return ""
+		}
+		if x.trap != y.trap {
+			return fmt.Sprintf("call %d %s(args #%d): interpreter %q, compiler %q", i, x.fn, x.av, x.trap+fmt.Sprint(x.res), y.trap+fmt.Sprint(y.res))
+		}
+		slot := 0
+		for _, t := range x.rt {
+			n := 1
+			if t == 0x7b {
+				n = 2
+			}
+			for k := 0; k < n && slot < len(x.res) && slot < len(y.res); k, slot = k+1, slot+1 {
+				u, v := x.res[slot], y.res[slot]
+				if t == api.ValueTypeI32 || t == api.ValueTypeF32 {
+					u, v = u&0xffffffff, v&0xffffffff
+				}
+				same := u == v
+				if isNaN(t, u) && isNaN(t, v) {
+					same = true
+				}
+				if t == 0x70 {
+					same = (u == 0) == (v == 0)
+				}
+				if !same {
+					return fmt.Sprintf("call %d %s(args #%d) result slot %d (type %#x): interpreter %#x, compiler %#x", i, x.fn, x.av, slot, t, u, v)
+				}
+			}
+		}
+	}
+	return ""
 }
 
 func outcomeClass(err error) string {
@@ -495,7 +567,7 @@ func runModule(ctx context.Context, eng string, bin []byte, m *wasm.Module) (obs
 		ok := true
 		for _, t := range append(append([]api.ValueType{}, d.ParamTypes()...), d.ResultTypes()...) {
 			switch t {
-			case api.ValueTypeI32, api.ValueTypeI64, api.ValueTypeF32, api.ValueTypeF64, api.ValueTypeExternref:
+			case api.ValueTypeI32, api.ValueTypeI64, api.ValueTypeF32, api.ValueTypeF64, api.ValueTypeExternref, 0x7b, 0x70:
 			default:
 				ok = false
 			}
@@ -503,7 +575,7 @@ func runModule(ctx context.Context, eng string, bin []byte, m *wasm.Module) (obs
 		if !ok {
 			continue
 		}
-		for _, args := range argVectors(d.ParamTypes()) {
+		for av, args := range argVectors(d.ParamTypes()) {
 			if obs.Timeouts >= 2 {
 				return
 			}
@@ -517,14 +589,18 @@ func runModule(ctx context.Context, eng string, bin []byte, m *wasm.Module) (obs
 				continue
 			}
 			tctx, cancel := context.WithTimeout(ctx, 150*time.Millisecond)
-			_, err := f.Call(tctx, args...)
+			out, err := f.Call(tctx, args...)
 			cancel()
 			obs.Calls++
+			rec := callRec{fn: n, av: av, rt: d.ResultTypes()}
 			if err != nil {
 				note(err)
+				rec.trap = outcomeClass(err)
 			} else {
 				obs.Outcomes["values"]++
+				rec.res = append([]uint64{}, out...)
 			}
+			obs.log = append(obs.log, rec)
 		}
 	}
 	return
